@@ -176,6 +176,11 @@ func (setup *SetupServerController) handleKeyExchange(in util.Container) (util.C
 	out.SetByte(TagSequence, setup.step.Byte())
 
 	data := in.GetBytes(TagEncryptedData)
+	if len(data) < 16 { // shorter than an auth tag
+		setup.reset()
+		out.SetByte(TagErrCode, ErrCodeUnknown.Byte()) // return error 1
+		return out, nil
+	}
 	message := data[:(len(data) - 16)]
 	var mac [16]byte
 	copy(mac[:], data[len(message):]) // 16 byte (MAC)
